@@ -9,7 +9,7 @@ import (
 
 // C19: keep-alive in virtual time.
 func C19(c *core.Ctx) {
-	c.Rep.Bound = "HIST over timed histories in virtual time: keep-alive K in {1,2,10} s; actions advance(0.4K / 0.9K / 1.3K / 1.6K), PINGREQ, PUBLISH, first byte of a packet then its second byte; will configured, witness subscribed to '#'; every sequence (no de-duplication) to depth 5 (quick) / 6 (thorough); a second alphabet with PUBLISH packets of exactly 8192 and 8191 bytes (the receiver's read block)"
+	c.Rep.Bound = "HIST over timed histories in virtual time: keep-alive K in {1,2,10} s; actions advance(0.4K / 0.9K / 1.3K / 1.6K), PINGREQ, PUBLISH, first byte of a packet then its second byte; will configured, witness subscribed to '#'; every sequence (no de-duplication) to depth 5 (quick) / 6 (thorough); a second alphabet with PUBLISH packets of exactly 8192 and 8191 bytes (the receiver's read block) and a packet that is never completed (fixed header and part of the body)"
 	c.Rep.Rule = "the connection must be open and every PINGREQ answered while all gaps between client transmissions are < K; it must be closed and its will published once a gap exceeds 1.5 K; in between either; no wall-clock time is involved: the clock moves only by the advance actions; non-trivial = histories in which the connection is dropped"
 	ks := []int{1, 2, 10}
 	for _, k := range ks {
@@ -35,9 +35,11 @@ func C19(c *core.Ctx) {
 					return false
 				}
 				// once X was dropped nothing more is interesting
-				half := false
+				half, stuck := false, false
 				for _, h := range hist {
 					switch {
+					case h.Kind == "send" && h.Client == "X" && len(h.Raw) > 1:
+						stuck = true // a packet that is never completed: the client is silent from here on
 					case h.Kind == "send" && h.Client == "X":
 						half = true
 					case h.Kind == "halfping2":
@@ -45,6 +47,9 @@ func C19(c *core.Ctx) {
 					}
 				}
 				if a.Client == "X" {
+					if stuck {
+						return false
+					}
 					if half {
 						return a.Kind == "halfping2"
 					}
@@ -74,6 +79,8 @@ func C19(c *core.Ctx) {
 			{Kind: "advance", D: K * 4 / 10}, {Kind: "advance", D: K * 9 / 10}, {Kind: "advance", D: K * 16 / 10},
 			{Kind: "ping", Client: "X"},
 			pub("X", "t", 0, 0, big(8192-6, 1)), pub("X", "t", 0, 0, big(8191-6, 2)), pub("X", "u", 1, 9, big(8192-8, 3)),
+			// a client that dies in the middle of a packet: complete fixed header, part of the body
+			{Kind: "send", Client: "X", Raw: append([]byte{0x30, 0x64, 0x00, 0x01, 't'}, []byte("0123456")...), RawDesc: "PUBLISH header announcing 100 bytes, 10 of them"},
 		}
 		blk.Search(c)
 		if c.HasViolation() || c.Expired() {
